@@ -49,7 +49,9 @@ try:
         for p in props:
             t0 = time.time()
             rcx, ox = sh(f'./check {p} --tier quick', cwd='/verif', env=dict(ENV, VERIF_REPO=W, VERIF_NO_EVIDENCE='1'), timeout=5400)
-            lines = [l for l in ox.splitlines() if l.startswith(('VIOLATION', 'OK ', 'INCONCLUSIVE', 'KNOWN-FINDING', '  '))][:8]
+            verdicts = [l for l in ox.splitlines() if l.startswith(('VIOLATION', 'OK ', 'INCONCLUSIVE', 'KNOWN-FINDING'))]
+            detail = [l for l in ox.splitlines() if l.startswith('  ') and ' success ' not in l]
+            lines = verdicts[:8] + detail[:6]
             checks[p] = dict(exit=rcx, seconds=round(time.time() - t0), lines=[l[:300] for l in lines])
             meta['ran'].append(f'VERIF_REPO={W} ./check {p} --tier quick: exit {rcx}')
         meta['checks'] = checks
